@@ -76,9 +76,12 @@ namespace c09
         void deserialize(igris::archive::binary_deserializer_basic &m)
         {
             m.load(id);
-            igris::buffer b;
-            m.load_set_buffer(b);
-            body.assign(b.data(), b.size());
+            // one long-lived view object receives every zero-copy payload in turn (a receive loop that re-uses its view); what
+            // it showed before is irrelevant: after the load it must show THIS payload
+            static igris::buffer view;
+            m.load_set_buffer(view);
+            body.assign(view.data(), view.size());
+            // (the view keeps pointing at this payload until the next load re-binds it; it is never read in between)
         }
     };
     // a copying reader whose destination is far bigger than any payload (64 KiB and more: wider than the 16-bit length field)
@@ -104,7 +107,16 @@ namespace c09
     };
     template <> struct Ref<B3>
     {
-        static B3 gen(kit::Rng &r, GenCfg &c) { B3 b; b.id = Ref<int32_t>::gen(r, c); b.body = Ref<std::string>::gen(r, c); return b; }
+        static B3 gen(kit::Rng &r, GenCfg &c)
+        {
+            B3 b;
+            b.id = Ref<int32_t>::gen(r, c);
+            b.body = Ref<std::string>::gen(r, c);
+            // a third of the bodies come from a pair that agrees up to a zero byte and in length (consecutive messages that look
+            // alike to a C-string comparison)
+            if (c.specials && r.chance(1, 3)) b.body = r.chance(1, 2) ? std::string("ab\0cd", 5) : std::string("ab\0xy", 5);
+            return b;
+        }
         static void enc(const B3 &v, std::string &o) { Ref<int32_t>::enc(v.id, o); Ref<std::string>::enc(v.body, o); }
         static bool eq(const B3 &a, const B3 &b) { return a.body == b.body && a.id == b.id; }
         static bool is_container() { return true; }
@@ -270,6 +282,14 @@ namespace c09
             igris::serialize(bw, v);
             size_t n = (size_t)(bw.ptr - buf.get());
             std::string conv = igris::serialize(v); // convenience function must agree with the archive
+            {
+                // two one-shot encodings alive at the same time (as in serialize(a) + serialize(b)): the first must not change
+                // when the second is made
+                const std::string &e1 = igris::serialize(v);
+                const std::string &e2 = igris::serialize(T());
+                if (e1 != conv) kit::violate("C09/writers-disagree@archive", "the result of igris::serialize(obj) changed when a second value of the same type was serialized while it was still in use");
+                (void)e2;
+            }
             if constexpr (std::is_same<T, long double>::value)
             {
                 std::string viabuf(buf.get(), n);
